@@ -115,10 +115,10 @@ theorem C17_remembers_exactly_last_reads {decls : Nat → List Decl} (hd : Decls
     ∃ v ps, x.value = some v ∧ PathR x.tree ps v ∧ ∀ e, e ∈ ps ↔ e ∈ x.parents :=
   ((reachable_good hd h).inv.evald c x hx (by simp [NoS])).2 hf
 
-/-- **Minimal recomputation** (partial: stated for the Computable that is read; of the Computables it reads in
-    turn, `C17_read_leaves_clean_and_later_untouched` says that the clean ones do not run; that a *dirty* one below it
-    runs only for one of the reasons given here holds at its own read — lemma `callC_spec` — but is not assembled into
-    one statement about all of them).  A read — returning or raising — runs the function body at most once, and
+/-- **Minimal recomputation, at most once** (partial: "at most once" is stated for the Computable that is read; for
+    every other Computable `C17_minimal` gives the reasons but no count — a Computable read in turn whose function
+    raises can run twice in one read, once in the dirty pre-check and once more when the function reads it: the code
+    does that).  A read — returning or raising — runs the function body at most once, and
     only if it never ran before, or raised the last time it ran (`first`), or some value it read last time (by the
     previous theorem: some remembered pair) differs from the present value of that Observable / the up-to-date
     value of that Computable (or that Computable raises now). -/
@@ -143,6 +143,30 @@ theorem C17_minimal_partial {decls : Nat → List Decl} (hd : DeclsOK decls) {s 
     rcases (herr e rfl).failed with hnone | ⟨y, hy, _, _, _, hj⟩
     · rw [hx] at hnone; cases hnone
     · exact ⟨y, hy, fin y (hj x hx)⟩
+
+/-- **Minimal recomputation, for every Computable** (the statement assembled over all nested reads, pre-checks and
+    evaluations of one read, returning or raising): for each Computable `q` — the one read, the ones it reads in turn,
+    all others — either its function did not run, and then nothing at all happened to `q` unless it was re-validated
+    (it is no longer dirty); or its function ran, and then `q` was dirty and it had never run / had raised the last
+    time it ran, or some value it read last time differs from the present value of that Observable / the up-to-date
+    value of that Computable (or that Computable raises now). -/
+theorem C17_minimal {decls : Nat → List Decl} (hd : DeclsOK decls) {s s' : St} (h : Reachable decls s)
+    {fuel c : Nat} {r : R} (hr : step fuel s (.read c) = some (s', r)) :
+    ∀ q x, s.comps q = some x → ∃ y, s'.comps q = some y ∧
+      ((y.evals = x.evals ∧ (y.dirty = true → y = x)) ∨
+       (x.evals < y.evals ∧ x.dirty = true ∧ (x.first = true ∨ ∃ e ∈ x.parents, Stale s' e))) := by
+  have g := reachable_good hd h
+  obtain ⟨hok, herr⟩ := (exec_IH fuel).get c s s' r NoS g.stat g.inv (by simp [NoS])
+    (fun q hq => by simp [NoS] at hq) hr
+  have key : Below (· ≤ c) s s' ∧ ∀ q, c < q → s'.comps q = s.comps q := by
+    cases r with
+    | ok v => exact ⟨(hok v rfl).below, fun q hq => (hok v rfl).above q hq (by rw [g.cur]; simp)⟩
+    | err e => exact ⟨(herr e rfl).below, (herr e rfl).above⟩
+  intro q x hx
+  by_cases hq : q ≤ c
+  · obtain ⟨y, hy, hj⟩ := key.1 q x hq hx
+    exact ⟨y, hy, hj⟩
+  · exact ⟨x, by rw [key.2 q (by omega)]; exact hx, Or.inl ⟨rfl, fun _ => rfl⟩⟩
 
 /-- **A read runs nothing it need not run, also among the Computables it reads in turn** (the assembled part of
     minimality): whatever a read of `c` — returning or raising — does in nested reads, pre-checks and evaluations,
@@ -458,6 +482,23 @@ example : (runOps 60 (init flDecls fun _ => [])
      .assign (0, 0) (i 3), .read 1]).map
       (fun res => (res.2.getLast?, (res.1.comps 0).map (·.evals), (res.1.comps 1).map (·.evals))) =
     some (some (.ok (i 13)), some 1, some 2) := by decide +kernel
+
+/-- non-vacuity of `C17_minimal` for a Computable read in turn: `c4 = 10 // d`, `c = x + c4`.  `d = 2`, then `d = 1`
+    again: reading `c` re-validates both and runs nothing (counters 1, 1); `d = 2`: reading `c` runs both (2, 2), `c4`
+    because the `d` it remembers is stale, `c` because the `c4` it remembers is -/
+example : (runOps 60 (init flDecls fun _ => [])
+    [.assign (0, 1) (i 1), .define 0 0 2 divTree,
+     .define 1 0 3 (.read (0, 0) fun x => .readC 0 fun a => .ret (vadd x a)),
+     .assign (0, 1) (i 2), .assign (0, 1) (i 1), .read 1]).map
+      (fun res => (res.2.getLast?, (res.1.comps 0).map (·.evals), (res.1.comps 1).map (·.evals))) =
+    some (some (.ok (i 10)), some 1, some 1) := by decide +kernel
+
+example : (runOps 60 (init flDecls fun _ => [])
+    [.assign (0, 1) (i 1), .define 0 0 2 divTree,
+     .define 1 0 3 (.read (0, 0) fun x => .readC 0 fun a => .ret (vadd x a)),
+     .assign (0, 1) (i 2), .read 1]).map
+      (fun res => (res.2.getLast?, (res.1.comps 0).map (·.evals), (res.1.comps 1).map (·.evals))) =
+    some (some (.ok (i 5)), some 2, some 2) := by decide +kernel
 
 /-! ### cycles: non-vacuity -/
 
